@@ -11,7 +11,7 @@
    header hash.  That the Go code computes these functions is the correspondence check. *)
 From Common Require Import Bytes Outcome Blake2b.
 From Coq Require Import Permutation.
-From C14 Require Import Proofs ProofsPrim ProofsOrder.
+From C14 Require Import Proofs ProofsPrim ProofsOrder ProofsWire.
 Local Open Scope N_scope.
 
 (* Every value of every wire type round-trips through its encoding (all values, all sizes) ... *)
@@ -133,6 +133,16 @@ Theorem C14_request_any_order : forall r fs, request_ok r = true ->
 Proof. exact request_any_order. Qed.
 Print Assumptions C14_request_any_order.
 
+(* ... and from ANY byte string the protobuf parser accepts ([parse]: varint, length-delimited,
+   64-bit and 32-bit fields; unknown field numbers and known numbers with another wire type are
+   kept and then skipped by the accessors) whose occurrences of the fields 1, 5, 6 and of the
+   oneof members 2/3 are, per field, those of the request: other field orders, unknown fields of
+   any wire type anywhere, non-minimal varints.  (Groups, wire types 3/4, are refused by [parse].) *)
+Theorem C14_request_any_wire : forall r bs fs, request_ok r = true ->
+  parse bs = Some fs -> req_equiv fs (req_fields r) -> decode_request bs = Ok r.
+Proof. exact request_any_wire. Qed.
+Print Assumptions C14_request_any_wire.
+
 (* Block responses round-trip up to what proto3 can express: an empty body / receipt / message
    queue arrives as an absent one (normalise); hash, header, extrinsics, justification —
    including the empty justification — arrive unchanged. *)
@@ -140,6 +150,20 @@ Theorem C14_response_roundtrip : forall ds, forallb block_data_ok ds = true ->
   decode_response (encode_response ds) = Ok (map normalise ds).
 Proof. exact response_roundtrip. Qed.
 Print Assumptions C14_response_roundtrip.
+
+(* The same for responses: the blocks (field 1) in their order, each block data message in any
+   accepted encoding that keeps, per field number 1..6 (bytes) and 7 (varint), the occurrences of
+   the canonical encoding (in particular the body items, field 3, in their order); unknown
+   fields anywhere at both levels. *)
+Theorem C14_block_data_any_wire : forall d m fs, block_data_ok d = true ->
+  parse m = Some fs -> bd_equiv fs (bd_fields d) -> decode_block_data m = Ok (normalise d).
+Proof. exact block_data_any_wire. Qed.
+Print Assumptions C14_block_data_any_wire.
+
+Theorem C14_response_any_wire : forall bs fs ds,
+  parse bs = Some fs -> blocks_of (all_bytes 1 fs) ds -> decode_response bs = Ok (map normalise ds).
+Proof. exact response_any_wire. Qed.
+Print Assumptions C14_response_any_wire.
 
 (* The primitives' generic header (internal/primitives/runtime/generic.Header, used for the
    vote ancestries of GrandpaJustification): pkg/scale encodes its digest items without their
@@ -169,6 +193,31 @@ Theorem C14_generic_header_digest_refuted :
          /\ decode_all prim_header (encode_untagged v) = None.
 Proof. exists untagged_witness. exact untagged_witness_spec. Qed.
 Print Assumptions C14_generic_header_digest_refuted.
+
+(* Decoding what the network sends (the reference encoding) into the generic header / into the
+   primitives' justification (client DecodeJustification): the value comes back when no header
+   carries a digest item; the decoder crashes exactly on the encodings of values inside the
+   finding's guard (and there is such a value). *)
+Theorem C14_generic_decode_partial : forall v,
+  (has_type prim_header v = true -> has_digest_items v = false ->
+     decode_generic_header (encode prim_header v) = Ok v) /\
+  (has_type prim_justification v = true -> just_has_digest_items v = false ->
+     decode_generic_just (encode prim_justification v) = Ok v).
+Proof. intro v. split; [exact (decode_generic_header_ok v) | exact (decode_generic_just_ok v)]. Qed.
+Print Assumptions C14_generic_decode_partial.
+
+Theorem C14_generic_decode_crash_iff_guard : forall bs,
+  (decode_generic_header bs = Panic <->
+     exists v, decode_all prim_header bs = Some v /\ has_digest_items v = true) /\
+  (decode_generic_just bs = Panic <->
+     exists v, decode_all prim_justification bs = Some v /\ just_has_digest_items v = true).
+Proof. intro bs. split; [exact (decode_generic_header_panic bs) | exact (decode_generic_just_panic bs)]. Qed.
+Print Assumptions C14_generic_decode_crash_iff_guard.
+
+Theorem C14_generic_decode_refuted :
+  exists v, has_type prim_header v = true /\ decode_generic_header (encode prim_header v) = Panic.
+Proof. exists untagged_witness. split; [exact (proj1 untagged_witness_spec) | exact decode_generic_witness]. Qed.
+Print Assumptions C14_generic_decode_refuted.
 
 (* ---- non-vacuity ---- *)
 (* the Polkadot genesis header: its reference encoding hashes to the chain's genesis hash
@@ -246,3 +295,26 @@ Proof.
   replace (N.min 1000 u32max) with 1000 by reflexivity.
   apply perm_swap.
 Qed.
+
+(* a request as another implementation might write it: oneof member first, an unknown 64-bit
+   field, an unknown varint field, field 1 carried as length-delimited (skipped) before the real
+   one, an unknown 32-bit field, a non-minimal varint for max_blocks *)
+Example C14_request_foreign_wire :
+  let r := mk_req 19 (FromNumber 1000) 1 (Some 128) in
+  let bs := hexb [26;4;232;3;0;0;  73;1;2;3;4;5;6;7;8;  120;5;  10;1;0;  8;128;128;128;152;1;
+                  173;1;9;9;9;9;  40;1;  48;128;129;0] in
+  match parse bs with
+  | Some fs => req_equiv fs (req_fields r) /\ length fs = 8%nat /\ decode_request bs = Ok r
+  | None => False
+  end.
+Proof. vm_compute. repeat split; reflexivity. Qed.
+
+(* a response with an unknown field before the block, the block data fields reversed and an
+   unknown 32-bit field inside *)
+Example C14_response_foreign_wire :
+  let d := mk_bd (zeros 32) None (Some [hexb [1;2;3]; hexb [4]]) (Some (hexb [7])) None (Some []) in
+  let inner := enc_fields [(7, WVarint 1); (9, WFixed32 (zeros 4)); (4, WBytes (hexb [7]));
+                           (3, WBytes (hexb [12;1;2;3])); (3, WBytes (hexb [4;4])); (1, WBytes (zeros 32))] in
+  let bs := enc_fields [(2, WVarint 5); (1, WBytes inner)] in
+  block_data_ok d = true /\ bs <> encode_response [d] /\ decode_response bs = Ok [normalise d].
+Proof. vm_compute. repeat split; try reflexivity. discriminate. Qed.
